@@ -99,7 +99,10 @@ def check(ctx, world):
                 return mk_app("unhex", (item(k),))
             for o in rets:
                 ctx.require(isinstance(o.value, Obj), "%s.from_serialized does not return an instance" % cname)
-                f = o.state.heap[o.value.oid]
+                # the blob is a well-formed stored object: every released key is present, so d.get(k[, default]) is d[k],
+                # and dict(d) is a copy with the same members (accepted idioms of the reader, normalised here only)
+                f = dict((k_, _norm_reader(v_, J)) for k_, v_ in o.state.heap[o.value.oid].items())
+                o.state.pc[base:] = [(_norm_reader(t, J), p, s_) for (t, p, s_) in o.state.pc[base:]]
                 terms = list(f.values()) + [t for (t, p, _) in o.state.pc[base:]]
                 used = set()
                 bad_use = []
@@ -138,6 +141,29 @@ def check(ctx, world):
                 fp_ok = any(is_app(t, "Eq", "NotEq") and ((t.f == "Eq") == p) and {item("hashed_params"), fp} == set(t.args) for t, p in conds)
                 ctx.ob("R-fingerprint", cname, fp_ok, "d['hashed_params'] must equal the recomputed released-recipe fingerprint" if fp_ok else
                        "reader does not compare d['hashed_params'] with the fingerprint of the released recipe", o.site)
+
+
+def _norm_reader(t, J):
+    from ..terms import TupleV
+    memo = {}
+
+    def go(x):
+        k = x._key
+        if k in memo:
+            return memo[k]
+        if isinstance(x, App):
+            r = mk_app(x.f, [go(a) for a in x.args], [(kk, go(v)) for kk, v in x.kw])
+            if r.f == "dict" and len(r.args) == 1 and not r.kw and r.args[0] == J:
+                r = J
+            elif r.f == ".get" and len(r.args) in (2, 3) and r.args[0] == J and isinstance(r.args[1], Const):
+                r = mk_app("index", (J, r.args[1]))
+        elif isinstance(x, TupleV):
+            r = TupleV([go(a) for a in x.items], x.kind)
+        else:
+            r = x
+        memo[k] = r
+        return r
+    return go(t) if hasattr(t, "_key") else t
 
 
 def _orders(keys, tier):
